@@ -251,7 +251,7 @@ func (lv *LeafVariants) GetHighestPrecedence(onlyNewOrUpdated bool, includeDefau
 		return nil
 	}
 	// otherwise if the secondhighest is not marked for deletion return it
-	if !checkExistsAndDeleteFlagSet(secondHighest) && checkNotOwner(secondHighest, RunningIntentName) {
+	if secondHighest != nil && !secondHighest.GetDeleteFlag() && checkNotOwner(secondHighest, RunningIntentName) {
 		return secondHighest
 	}
 
